@@ -23,44 +23,46 @@ EXTENDS Naturals, Sequences, TLC, Json
 
 Trace == ndJsonDeserialize("pipeline_trace.ndjson")
 
-VARIABLES l, cmd, version, cfg, loaded, errs, failedDiags, reduced, rendered, wroteRoutes, wroteSpec, v30, v31, exited
-vars == <<l, cmd, version, cfg, loaded, errs, failedDiags, reduced, rendered, wroteRoutes, wroteSpec, v30, v31, exited>>
+VARIABLES l, lenient, cmd, version, cfg, loaded, errs, failedDiags, reduced, rendered, wroteRoutes, wroteSpec, v30, v31, exited
+vars == <<l, lenient, cmd, version, cfg, loaded, errs, failedDiags, reduced, rendered, wroteRoutes, wroteSpec, v30, v31, exited>>
 
 Has(ev, f) == f \in DOMAIN ev
 Viol(prop, cond) == IF cond THEN TRUE ELSE PrintT("VIOL " \o prop \o " " \o ToString(l) \o " " \o Trace[l].event)
 
-Reset(ev) == /\ cmd' = ev.cmd /\ version' = ev.version /\ cfg' = "none" /\ loaded' = FALSE /\ errs' = 0 /\ failedDiags' = FALSE
+\* lenient runs come from the repository's own tests (a test process may build a pipeline without reading a configuration file and
+\* never "exits"): the configuration-first rule then only applies once a configuration file was read
+Reset(ev) == /\ lenient' = Has(ev, "lenient") /\ cmd' = ev.cmd /\ version' = ev.version /\ cfg' = "none" /\ loaded' = FALSE /\ errs' = 0 /\ failedDiags' = FALSE
              /\ reduced' = FALSE /\ rendered' = FALSE /\ wroteRoutes' = FALSE /\ wroteSpec' = FALSE /\ v30' = FALSE /\ v31' = FALSE /\ exited' = FALSE
 
 Step(ev) ==
-    CASE ev.event = "Run" -> Viol("C14", l = 1 \/ exited) /\ Reset(ev)
-      [] ev.event = "ConfigRead" -> cfg' = "read" /\ UNCHANGED <<cmd, version, loaded, errs, failedDiags, reduced, rendered, wroteRoutes, wroteSpec, v30, v31, exited>>
-      [] ev.event = "ConfigRejected" -> cfg' = "rejected" /\ UNCHANGED <<cmd, version, loaded, errs, failedDiags, reduced, rendered, wroteRoutes, wroteSpec, v30, v31, exited>>
-      [] ev.event = "ConfigAccepted" -> cfg' = "accepted" /\ UNCHANGED <<cmd, version, loaded, errs, failedDiags, reduced, rendered, wroteRoutes, wroteSpec, v30, v31, exited>>
-      [] ev.event = "PackagesLoad" -> Viol("C20", cfg = "accepted") /\ loaded' = TRUE
-                                      /\ UNCHANGED <<cmd, version, cfg, errs, failedDiags, reduced, rendered, wroteRoutes, wroteSpec, v30, v31, exited>>
-      [] ev.event \in {"GraphGenerated", "Permute"} -> Viol("C20", cfg = "accepted") /\ UNCHANGED <<cmd, version, cfg, loaded, errs, failedDiags, reduced, rendered, wroteRoutes, wroteSpec, v30, v31, exited>>
-      [] ev.event = "Validated" -> errs' = ev.errorEntities /\ UNCHANGED <<cmd, version, cfg, loaded, failedDiags, reduced, rendered, wroteRoutes, wroteSpec, v30, v31, exited>>
+    CASE ev.event = "Run" -> Viol("C14", l = 1 \/ exited \/ lenient \/ Has(ev, "lenient")) /\ Reset(ev)
+      [] ev.event = "ConfigRead" -> cfg' = "read" /\ UNCHANGED <<lenient, cmd, version, loaded, errs, failedDiags, reduced, rendered, wroteRoutes, wroteSpec, v30, v31, exited>>
+      [] ev.event = "ConfigRejected" -> cfg' = "rejected" /\ UNCHANGED <<lenient, cmd, version, loaded, errs, failedDiags, reduced, rendered, wroteRoutes, wroteSpec, v30, v31, exited>>
+      [] ev.event = "ConfigAccepted" -> cfg' = "accepted" /\ UNCHANGED <<lenient, cmd, version, loaded, errs, failedDiags, reduced, rendered, wroteRoutes, wroteSpec, v30, v31, exited>>
+      [] ev.event = "PackagesLoad" -> Viol("C20", cfg = "accepted" \/ (lenient /\ cfg = "none")) /\ loaded' = TRUE
+                                      /\ UNCHANGED <<lenient, cmd, version, cfg, errs, failedDiags, reduced, rendered, wroteRoutes, wroteSpec, v30, v31, exited>>
+      [] ev.event \in {"GraphGenerated", "Permute"} -> Viol("C20", cfg = "accepted" \/ (lenient /\ cfg = "none")) /\ UNCHANGED <<lenient, cmd, version, cfg, loaded, errs, failedDiags, reduced, rendered, wroteRoutes, wroteSpec, v30, v31, exited>>
+      [] ev.event = "Validated" -> errs' = ev.errorEntities /\ UNCHANGED <<lenient, cmd, version, cfg, loaded, failedDiags, reduced, rendered, wroteRoutes, wroteSpec, v30, v31, exited>>
       [] ev.event = "RunFailedOnDiagnostics" -> Viol("C10", errs > 0) /\ failedDiags' = TRUE
-                                      /\ UNCHANGED <<cmd, version, cfg, loaded, errs, reduced, rendered, wroteRoutes, wroteSpec, v30, v31, exited>>
+                                      /\ UNCHANGED <<lenient, cmd, version, cfg, loaded, errs, reduced, rendered, wroteRoutes, wroteSpec, v30, v31, exited>>
       [] ev.event = "Reduced" -> Viol("C10", errs = 0 /\ ~failedDiags) /\ reduced' = ev.ok
-                                      /\ UNCHANGED <<cmd, version, cfg, loaded, errs, failedDiags, rendered, wroteRoutes, wroteSpec, v30, v31, exited>>
+                                      /\ UNCHANGED <<lenient, cmd, version, cfg, loaded, errs, failedDiags, rendered, wroteRoutes, wroteSpec, v30, v31, exited>>
       [] ev.event = "RoutesRendered" -> Viol("C10", reduced /\ errs = 0) /\ rendered' = TRUE
-                                      /\ UNCHANGED <<cmd, version, cfg, loaded, errs, failedDiags, reduced, wroteRoutes, wroteSpec, v30, v31, exited>>
-      [] ev.event = "RoutesFormatted" -> UNCHANGED <<cmd, version, cfg, loaded, errs, failedDiags, reduced, rendered, wroteRoutes, wroteSpec, v30, v31, exited>>
+                                      /\ UNCHANGED <<lenient, cmd, version, cfg, loaded, errs, failedDiags, reduced, wroteRoutes, wroteSpec, v30, v31, exited>>
+      [] ev.event = "RoutesFormatted" -> UNCHANGED <<lenient, cmd, version, cfg, loaded, errs, failedDiags, reduced, rendered, wroteRoutes, wroteSpec, v30, v31, exited>>
       [] ev.event = "RoutesWritten" -> Viol("C10", reduced /\ errs = 0 /\ rendered) /\ wroteRoutes' = TRUE
-                                      /\ UNCHANGED <<cmd, version, cfg, loaded, errs, failedDiags, reduced, rendered, wroteSpec, v30, v31, exited>>
+                                      /\ UNCHANGED <<lenient, cmd, version, cfg, loaded, errs, failedDiags, reduced, rendered, wroteSpec, v30, v31, exited>>
       [] ev.event = "Spec30Built" -> Viol("C10", reduced /\ errs = 0) /\ v30' = FALSE /\ v31' = FALSE
-                                      /\ UNCHANGED <<cmd, version, cfg, loaded, errs, failedDiags, reduced, rendered, wroteRoutes, wroteSpec, exited>>
-      [] ev.event = "Spec30Validated" -> v30' = ev.ok /\ UNCHANGED <<cmd, version, cfg, loaded, errs, failedDiags, reduced, rendered, wroteRoutes, wroteSpec, v31, exited>>
-      [] ev.event = "Spec31Built" -> Viol("C08", v30) /\ UNCHANGED <<cmd, version, cfg, loaded, errs, failedDiags, reduced, rendered, wroteRoutes, wroteSpec, v30, v31, exited>>
-      [] ev.event = "Spec31Validated" -> v31' = ev.ok /\ UNCHANGED <<cmd, version, cfg, loaded, errs, failedDiags, reduced, rendered, wroteRoutes, wroteSpec, v30, exited>>
+                                      /\ UNCHANGED <<lenient, cmd, version, cfg, loaded, errs, failedDiags, reduced, rendered, wroteRoutes, wroteSpec, exited>>
+      [] ev.event = "Spec30Validated" -> v30' = ev.ok /\ UNCHANGED <<lenient, cmd, version, cfg, loaded, errs, failedDiags, reduced, rendered, wroteRoutes, wroteSpec, v31, exited>>
+      [] ev.event = "Spec31Built" -> Viol("C08", v30) /\ UNCHANGED <<lenient, cmd, version, cfg, loaded, errs, failedDiags, reduced, rendered, wroteRoutes, wroteSpec, v30, v31, exited>>
+      [] ev.event = "Spec31Validated" -> v31' = ev.ok /\ UNCHANGED <<lenient, cmd, version, cfg, loaded, errs, failedDiags, reduced, rendered, wroteRoutes, wroteSpec, v30, exited>>
       [] ev.event = "SpecWritten" -> Viol("C08", v30 /\ (ev.version = "3.1.0" => v31)) /\ Viol("C10", errs = 0 /\ ~failedDiags) /\ wroteSpec' = TRUE
-                                      /\ UNCHANGED <<cmd, version, cfg, loaded, errs, failedDiags, reduced, rendered, wroteRoutes, v30, v31, exited>>
+                                      /\ UNCHANGED <<lenient, cmd, version, cfg, loaded, errs, failedDiags, reduced, rendered, wroteRoutes, v30, v31, exited>>
       [] ev.event = "FsDelta" -> /\ Viol("C20", cfg = "accepted" \/ ev.changed = 0)
                                  /\ Viol("C10", ~failedDiags \/ ev.changed = 0)
                                  /\ Viol("C08", ev.specChanged = wroteSpec)
-                                 /\ UNCHANGED <<cmd, version, cfg, loaded, errs, failedDiags, reduced, rendered, wroteRoutes, wroteSpec, v30, v31, exited>>
+                                 /\ UNCHANGED <<lenient, cmd, version, cfg, loaded, errs, failedDiags, reduced, rendered, wroteRoutes, wroteSpec, v30, v31, exited>>
       [] ev.event = "Exit" -> /\ Viol("C14", ~ev.panicked /\ ~ev.timedOut /\ ev.code \in {0, 1})
                               /\ Viol("C14", ev.code = 1 => ~ev.msgEmpty)
                               /\ Viol("C10", failedDiags => ev.code = 1)
@@ -68,10 +70,10 @@ Step(ev) ==
                               /\ Viol("C14", ev.code = 0 => ((cmd = "generate spec-and-routes" => wroteRoutes /\ wroteSpec)
                                                               /\ (cmd = "generate spec" => wroteSpec) /\ (cmd = "generate routes" => wroteRoutes)))
                               /\ exited' = TRUE
-                              /\ UNCHANGED <<cmd, version, cfg, loaded, errs, failedDiags, reduced, rendered, wroteRoutes, wroteSpec, v30, v31>>
-      [] OTHER -> PrintT("VIOL TRACE " \o ToString(l) \o " unknown event") /\ UNCHANGED <<cmd, version, cfg, loaded, errs, failedDiags, reduced, rendered, wroteRoutes, wroteSpec, v30, v31, exited>>
+                              /\ UNCHANGED <<lenient, cmd, version, cfg, loaded, errs, failedDiags, reduced, rendered, wroteRoutes, wroteSpec, v30, v31>>
+      [] OTHER -> PrintT("VIOL TRACE " \o ToString(l) \o " unknown event") /\ UNCHANGED <<lenient, cmd, version, cfg, loaded, errs, failedDiags, reduced, rendered, wroteRoutes, wroteSpec, v30, v31, exited>>
 
-TraceInit == /\ l = 1 /\ cmd = "" /\ version = "" /\ cfg = "none" /\ loaded = FALSE /\ errs = 0 /\ failedDiags = FALSE /\ reduced = FALSE
+TraceInit == /\ l = 1 /\ lenient = FALSE /\ cmd = "" /\ version = "" /\ cfg = "none" /\ loaded = FALSE /\ errs = 0 /\ failedDiags = FALSE /\ reduced = FALSE
              /\ rendered = FALSE /\ wroteRoutes = FALSE /\ wroteSpec = FALSE /\ v30 = FALSE /\ v31 = FALSE /\ exited = FALSE
 TraceNext == l <= Len(Trace) /\ Step(Trace[l]) /\ l' = l + 1
 TraceSpec == TraceInit /\ [][TraceNext]_vars
